@@ -81,7 +81,14 @@ func VerifC15AddNode() {
 	}()
 	go func() {
 		var found *RawNode
-		if vChoice("lookup", 2) == 0 {
+		lk := vChoice("lookup", 3)
+		if lk == 2 {
+			// the manager is closed while the node is being added
+			vReach("close-while-adding")
+			w.mgr.Close()
+			return
+		}
+		if lk == 0 {
 			found, _ = w.mgr.Node(2)
 		} else {
 			for _, n := range w.mgr.Nodes() {
@@ -109,3 +116,57 @@ func VerifC15AddNode() {
 }
 
 func VerifC15AddNodeTwin() { VerifC15AddNode(); vFail("C15.twin") }
+
+// VerifC14ConcurrentAdd: two goroutines create, at the same time, configurations that name
+// an address the manager has not seen yet (each through a list, a map or AddNode). "The
+// manager keeps one node object and connection per ID shared by all configurations": the
+// pool lists the id once, both configurations (where both succeed) hold the same node object,
+// and at most one connection to the peer stays open. Also run under the race monitor (C15).
+func VerifC14ConcurrentAdd() {
+	w := vMixed(1, 0, nil)
+	vFreezeEnv()
+	p2 := w.net.addPeer(2, true)
+	var got [2]*RawNode
+	var failed [2]bool
+	for g := 0; g < 2; g++ {
+		g := g
+		via := vChoice("via", 2)
+		go func() {
+			if via == 0 {
+				n, err := NewRawNodeWithID(p2.addr, 2)
+				if err != nil || w.mgr.AddNode(n) != nil {
+					failed[g] = true
+					return
+				}
+				got[g] = n
+			} else {
+				c, err := NewRawConfiguration(w.mgr, WithNodeMap(map[string]uint32{p2.addr: 2}))
+				if err != nil {
+					failed[g] = true
+					return
+				}
+				got[g] = c[0]
+			}
+		}()
+	}
+	vQuiescent()
+	cnt := 0
+	for _, n := range w.mgr.Nodes() {
+		if n.ID() == 2 {
+			cnt++
+		}
+	}
+	vAssert(cnt == 1, "C14.node-pooled-twice|C15.pool-corrupted-by-concurrent-creation")
+	pooled, ok := w.mgr.Node(2)
+	vAssert(ok, "C14.node-not-pooled")
+	for g := 0; g < 2; g++ {
+		if !failed[g] {
+			vAssert(got[g] == pooled, "C14.node-not-pooled.concurrent|C15.two-node-objects-for-one-id")
+		}
+	}
+	vAssert(!failed[0] || !failed[1], "C14.both-creations-failed")
+	vAssert(p2.conns <= 1, "C14.second-connection-for-one-id|C12.connection-left")
+	vReach("end")
+}
+
+func VerifC14ConcurrentAddTwin() { VerifC14ConcurrentAdd(); vFail("C14.twin") }
